@@ -807,3 +807,71 @@ func init() {
 	register(&Scenario{Prop: "C09", Name: "c09/backlog-partial-drain", Quick: []Bound{{0, 0}}, Thorough: []Bound{{1, 0}}, Body: c09PartialDrain, BudgetQ: 20, BudgetT: 200, MaxSteps: 400000, MinHB: 1})
 	register(&Scenario{Prop: "C09", Name: "c09/two-connections-allmodes", Quick: []Bound{{0, 0}, {1, 0}}, Thorough: []Bound{{2, 0}}, Body: c09TwoConnections, BudgetQ: 15, MaxSteps: 200000})
 }
+
+// two goroutines write to one stream at the same time (WriteMessage may be called from several
+// goroutines): every message is echoed exactly once, and the messages of each writer keep their order.
+func c09TwoWriters(x *X) {
+	mode := x.Choose(3)
+	so := srvOpts{bufSize: 64}
+	co := cliOpts{bufSize: 64}
+	switch mode {
+	case 1:
+		so.pipelining = true
+	case 2:
+		co.pipelining = true
+	}
+	f := newFixture(so, co)
+	st, err := f.conn.NewStream("StreamSvc.Push")
+	if err != nil {
+		x.Fail("C09/open-failed/two-writers", "NewStream: %v", err)
+		return
+	}
+	var got [][]byte
+	vs.GoNamed("reader", func() {
+		for {
+			var m []byte
+			if st.ReadMessage(nil, &m) != nil {
+				return
+			}
+			got = append(got, append([]byte(nil), m...))
+		}
+	})
+	per := 2
+	for wi := 0; wi < 2; wi++ {
+		wi := wi
+		vs.GoNamed(fmt.Sprintf("writer%d", wi), func() {
+			for j := 0; j < per; j++ {
+				m := streamMsg(byte(0x31+wi), j)
+				st.WriteMessage(&m)
+			}
+		})
+	}
+	vs.Quiesce()
+	if len(got) != 2*per {
+		x.Fail("C09/client-count/two-writers", "two goroutines wrote %d messages each to one stream: %d echoes arrived", per, len(got))
+	}
+	next := map[byte]int{}
+	for _, g := range got {
+		ok := false
+		for wi := 0; wi < 2; wi++ {
+			id := byte(0x31 + wi)
+			if j := next[id]; j < per && eqBytes(g, transform(streamMsg(id, j))) {
+				next[id]++
+				ok = true
+				break
+			}
+		}
+		if !ok {
+			x.Fail("C09/client-sequence/two-writers", "two goroutines wrote to one stream concurrently: an echo arrived that is not the echo of either writer's next message (a message was sent twice, lost, or out of its writer's order): %x; so far writer counts %v", clipBytes(g, 10), next)
+			break
+		}
+	}
+	x.Outcome("mode=%d got=%d", mode, len(got))
+	st.Close()
+	f.conn.Close()
+	vs.Quiesce()
+}
+
+func init() {
+	register(&Scenario{Prop: "C09", Name: "c09/two-writers-one-stream", Quick: []Bound{{1, 0}, {2, 0}}, Thorough: []Bound{{3, 0}}, Body: c09TwoWriters, BudgetQ: 20})
+}
